@@ -29,7 +29,7 @@ CANARIES = [
      'new': "            if mw not in all_mw:\n                all_mw.insert(0, mw)"},
 ]
 # build_file_response is C14's function: C13 owns only 'an opened file is owned by the response or closed'
-OWN = [r'_dispatch_wsgi', r'check_valid_wsgi', r'_safe_wrap_wsgi', r'_get_all_middlewares', r'build_file_response/exc_ensures', r'^C13\.']
+OWN = [r'_dispatch_wsgi', r'check_valid_wsgi', r'_safe_wrap_wsgi', r'_get_all_middlewares', r'build_file_response/(exc_ensures|ensures\[3\])', r'^C13\.']
 QUICK_CANARIES = 2
 
 
